@@ -27,9 +27,11 @@ import (
 	"math/big"
 	mrand "math/rand"
 	"os"
+	"runtime"
 	"net"
 	"strings"
 	"sync"
+	"sync/atomic"
 	"time"
 
 	"github.com/aptpod/iscp-go/transport"
@@ -44,6 +46,7 @@ import (
 // ---------- in-memory websocket.Conn ----------
 
 type memConn struct {
+	failAfter int32      // > 0: the next message writer accepts this many bytes and then fails (a connection that breaks in mid-message)
 	wmu    sync.Mutex // one message writer at a time (the contract the coder / nhooyr connections give)
 	out    chan []byte
 	in     chan []byte
@@ -80,16 +83,31 @@ func (c *memConn) Reader(ctx context.Context) (websocket.MessageType, io.Reader,
 }
 
 type memWriter struct {
-	c   *memConn
-	buf bytes.Buffer
+	c      *memConn
+	buf    bytes.Buffer
+	failed bool
 }
 
 func (c *memConn) Writer(ctx context.Context, _ websocket.MessageType) (io.WriteCloser, error) {
 	c.wmu.Lock()
 	return &memWriter{c: c}, nil
 }
-func (w *memWriter) Write(b []byte) (int, error) { return w.buf.Write(b) }
+func (w *memWriter) Write(b []byte) (int, error) {
+	if fa := atomic.LoadInt32(&w.c.failAfter); fa > 0 {
+		n := int(fa) - 1
+		if n > len(b) {
+			n = len(b)
+		}
+		w.failed = true
+		return n, fmt.Errorf("connection broke in mid-message")
+	}
+	return w.buf.Write(b)
+}
 func (w *memWriter) Close() error {
+	if w.failed {
+		w.c.wmu.Unlock()
+		return nil
+	}
 	b := append([]byte(nil), w.buf.Bytes()...)
 	w.c.capMu.Lock()
 	w.c.frames = append(w.c.frames, b)
@@ -740,6 +758,72 @@ func main() {
 		B.Close()
 		h.Op(fmt.Sprintf("conc mem %d", i), "-")
 		h.Distinct(fmt.Sprintf("conc/%d", i))
+	}
+	// (C) a connection that breaks in mid-message must not leak its bytes into another connection's messages
+	for mi, c := range []cfg{{enable: true, perMessage: true, level: 6}, {enable: true, bits: 15, level: 6}} {
+		if onlyReal {
+			break
+		}
+		h.Case(fmt.Sprintf("fault %d", mi))
+		for round := 0; round < 30; round++ {
+			fa, _ := memPair()
+			atomic.StoreInt32(&fa.failAfter, int32(2+round%7))
+			A := websocket.New(websocket.Config{Conn: fa, NegotiationParams: c.params()})
+			if err := A.Write(tagged(500+round, 0, 600)); err == nil {
+				h.Violate("a Write into a connection that breaks in mid-message reported success")
+			}
+			cb1, cb2 := memPair()
+			B1 := websocket.New(websocket.Config{Conn: cb1, NegotiationParams: c.params()})
+			B2 := websocket.New(websocket.Config{Conn: cb2, NegotiationParams: c.params()})
+			want := tagged(700+round, 1, 300)
+			if err := B1.Write(want); err != nil {
+				h.Violate(fmt.Sprintf("Write on a healthy connection failed after another connection broke: %v", err))
+			}
+			got, err := readT(B2, 2*time.Second)
+			if err != nil || !bytes.Equal(got, want) {
+				h.Violate(fmt.Sprintf("%s: after another connection broke in mid-message, the peer of a healthy connection read %d bytes (err=%v) that are not the %d bytes written to it", modeString(B1.VerifCompressConfig()), len(got), err, len(want)))
+				break
+			}
+			A.Close()
+			B1.Close()
+			B2.Close()
+		}
+		h.Op(fmt.Sprintf("conc fault %d", mi), "-")
+		h.Distinct(fmt.Sprintf("fault/%d", mi))
+	}
+	// (C) the per-message compression functions of quic / webtransport used from several transports at once
+	if !onlyReal {
+		h.Case("conc encode")
+		for _, f := range framers {
+			var wg sync.WaitGroup
+			bad := int32(0)
+			for g := 0; g < 8; g++ {
+				wg.Add(1)
+				go func(g int) {
+					defer wg.Done()
+					for k := 0; k < 300; k++ {
+						m := tagged(g, k, 200+37*((g+k)%9))
+						e, err := f.enc(m, 1+(g+k)%9)
+						if err != nil {
+							atomic.AddInt32(&bad, 1)
+							continue
+						}
+						snap := append([]byte(nil), e...)
+						runtime.Gosched()
+						d, err := f.dec(e)
+						if err != nil || !bytes.Equal(d, m) || !bytes.Equal(snap, e) {
+							atomic.AddInt32(&bad, 1)
+						}
+					}
+				}(g)
+			}
+			wg.Wait()
+			if bad > 0 {
+				h.Violate(fmt.Sprintf("%s: with 8 goroutines compressing at once, %d of 2400 compressed payloads changed under the caller or no longer decode to their message", f.name, bad))
+			}
+		}
+		h.Op("conc encode", "-")
+		h.Distinct("concencode")
 	}
 	// (C) real backends
 	nreal := 2
